@@ -271,7 +271,7 @@ pub fn packs_in_file(bytes: &[u8]) -> Vec<PackAt> {
     }
     let kind = bytes[3];
     let hdr = |o: usize| -> Option<PackAt> {
-        if o + 64 > bytes.len() || &bytes[o..o + 3] != b"jbk" {
+        if o.checked_add(64).map_or(true, |e| e > bytes.len()) || &bytes[o..o + 3] != b"jbk" {
             return None;
         }
         let mut uuid = [0u8; 16];
@@ -293,10 +293,10 @@ pub fn packs_in_file(bytes: &[u8]) -> Vec<PackAt> {
     let loc_pos = le(&bytes[64..72]) as usize;
     let count = le(&bytes[72..74]) as usize;
     for k in 0..count {
-        let o = loc_pos + k * 36;
-        if o + 36 > bytes.len() {
-            break;
-        }
+        let o = match loc_pos.checked_add(k * 36) {
+            Some(o) if o.checked_add(36).map_or(false, |e| e <= bytes.len()) => o,
+            _ => break,
+        };
         let size = le(&bytes[o + 16..o + 24]) as usize;
         let pos = le(&bytes[o + 24..o + 32]) as usize;
         if let Some(mut p) = hdr(pos) {
@@ -355,20 +355,26 @@ pub fn dump_all_clusters(dir: &Path, decdir: &Path) {
             Err(_) => continue,
         };
         // header at 0 or mirrored tail
+        // (both: the head of the file may merely look like a pack header — a prefix — while the
+        // container sits at the end)
         let mut packs = packs_in_file(&bytes);
-        if packs.is_empty() && bytes.len() >= 128 {
+        let head_packs = std::mem::take(&mut packs);
+        if bytes.len() >= 128 {
             let mut tail: Vec<u8> = bytes[bytes.len() - 64..].to_vec();
             tail.reverse();
             if &tail[0..3] == b"jbk" {
                 let size = le(&tail[32..40]) as usize;
                 if size <= bytes.len() {
                     let origin = bytes.len() - size;
-                    packs = packs_in_file(&bytes[origin..]).into_iter().map(|mut p| { p.origin += origin; p }).collect();
+                    if origin > 0 {
+                        packs = packs_in_file(&bytes[origin..]).into_iter().map(|mut p| { p.origin += origin; p }).collect();
+                    }
                 }
             }
         }
+        packs.extend(head_packs);
         for pk in packs {
-            if pk.kind == b'c' && pk.origin + pk.size <= bytes.len() {
+            if pk.kind == b'c' && pk.origin.checked_add(pk.size).map_or(false, |e| e <= bytes.len()) {
                 let pack = &bytes[pk.origin..pk.origin + pk.size];
                 if let Some(dec) = crate::cpdec::decode(pack) {
                     // keyed by uuid AND content: a damaged copy of the same pack must not shadow it
